@@ -122,7 +122,7 @@ func fuzzValue(r *rand.Rand, g *docGen, key string, depth int) any {
 	link := func() any {
 		m := map[string]any{"type": pick(r, []string{"Link", "Image", "Video", "Audio", "Document", "Note"}), "mediaType": pick(r, []string{"image/png", "video/mp4", "text/html", "bogus", ""})}
 		if r.Intn(5) != 0 {
-			m[pick(r, []string{"href", "url"})] = pick(r, []string{"https://m.example/a.png", "://bad", "", "relative/x", "https://m.example/\x7f"})
+			m[pick(r, []string{"href", "url"})] = pick(r, []string{"https://m.example/a.png", "://bad", "", "relative/x", "https://m.example/\x7f", "https://m.example/%1B%5B2J%07.png", "https://m.example/dir/a%C2%9B31mb", "https://m.example/%00%0A%0D?q=%1B", "https://m%C2%9B.example/x"})
 		}
 		if r.Intn(2) == 0 {
 			m["name"] = g.text(3)
